@@ -657,7 +657,8 @@ class Parser:
                 flags |= self.RE_FLAG_MAP[flag]
         try:
             return RegexLiteral(value=re.compile(pattern, flags))
-        except re.error as err:
+        except (re.error, OverflowError) as err:
+            # OverflowError: a repetition count beyond what `re` accepts.
             raise JSONPathSyntaxError(
                 f"invalid regular expression: {err}", token=stream.current
             ) from err
